@@ -105,17 +105,17 @@ func runC19(c *Ctx) {
 		R.Ob("(*Conn).init/limiter over the current conn", c.P.Pos(f.Pos()), m["st:lineLimitReader.R=@Conn.conn"], "lineLimitReader.R is not certainly the current connection; events: "+fmt.Sprint(m.list()))
 		R.Ob("(*Conn).init/limit from MaxLineLength", c.P.Pos(f.Pos()), m["st:lineLimitReader.LineLimit=@Server.MaxLineLength"], "LineLimit is not certainly initialised from Server.MaxLineLength")
 		R.Ob("(*Conn).init/limiter stored", c.P.Pos(f.Pos()), m["st:Conn.lineLimitReader"], "the limiter is not stored in the connection")
-		// the reader handed to textproto reads through the limiter
-		okReader := false
-		allInstrs(f, func(in ssa.Instruction) {
-			if fld, _, v := storedField(in); fld != nil && fld.Name() == "Reader" {
-				d := describe(v)
-				if d == "Conn.lineLimitReader" || strings.HasPrefix(d, "alloc:complit") {
-					okReader = true
-				}
+		// the reader handed to textproto reads through the limiter: every layer between textproto and the socket is
+		// traced back (struct fields assigned in init, io.TeeReader, package reader types wrapping a reader) and the
+		// chain has to end in the limiter stored in the connection
+		okReader, whyReader := false, "no textproto.NewConn call in init()"
+		for _, nc := range s.Find(f, "call:textproto.NewConn") {
+			okReader, whyReader = readerChainEndsInLimiter(f, callCommon(nc).Args[0])
+			if !okReader {
+				break
 			}
-		})
-		R.Ob("(*Conn).init/textproto reads through the limiter", c.P.Pos(f.Pos()), okReader, "the reader given to textproto.NewConn is not the line limiter")
+		}
+		R.Ob("(*Conn).init/textproto reads through the limiter", c.P.Pos(f.Pos()), okReader, "the reader given to textproto.NewConn does not read through the line limiter: "+whyReader)
 	}
 
 	ruleLineLimitCounting(c)
@@ -156,6 +156,7 @@ func runC19(c *Ctx) {
 	}
 
 	ruleConstIndexGuarded(c)
+	ruleProtocolErrorSites(c)
 
 	R.Rule("R-no-dispatch-after-close", "E2+E4+call graph", "after the dispatch that closes the connection for too many errors no further buffered command is dispatched (its handler would run without a session and panic)", 2)
 	ruleNoDispatchAfterClose(c)
@@ -689,4 +690,183 @@ func ruleNoPartialLine(c *Ctx) {
 			R.Ob(c.siteKey(rd, "limiter consulted after the read"), c.P.InstrPos(rd), len(v) == 0, "the line is returned without consulting the limiter after the ReadLine call that may have exceeded the limit: a check made before the read does not cover the line just read")
 		})
 	}
+}
+
+// readerChainEndsInLimiter traces the io.Reader textproto is built on, inside init(): through interface conversions,
+// the fields of local structs (every value assigned to the field; an assignment that wraps the field's previous value
+// is followed to the other assignments), io.TeeReader and package-defined reader types wrapping another reader. Every
+// branch must end in the *lineLimitReader that init() stores in Conn.lineLimitReader.
+func readerChainEndsInLimiter(f *ssa.Function, v ssa.Value) (bool, string) {
+	isLimiterField := func(a ssa.Value) bool {
+		fld, base := fieldAddrOf(a)
+		return fld != nil && fld.Name() == "lineLimitReader" && describe(base) == "param0"
+	}
+	seen := map[ssa.Value]bool{}
+	var fieldOK func(a *ssa.Alloc, name string) (bool, string)
+	var ok func(v ssa.Value) (bool, string)
+	fieldOK = func(a *ssa.Alloc, name string) (bool, string) {
+		n := 0
+		res, why := true, ""
+		allInstrs(f, func(in ssa.Instruction) {
+			st, isSt := in.(*ssa.Store)
+			if !isSt || !res {
+				return
+			}
+			if fa, isFA := st.Addr.(*ssa.FieldAddr); isFA && fa.X == a {
+				if stt, isS := derefType(a.Type()).Underlying().(*types.Struct); isS && stt.Field(fa.Field).Name() == name {
+					n++
+					if o, w := ok(st.Val); !o {
+						res, why = false, w
+					}
+				}
+				return
+			}
+			if st.Addr == a { // whole-struct assignment from another local
+				if ld, isLd := st.Val.(*ssa.UnOp); isLd {
+					if b, isA := ld.X.(*ssa.Alloc); isA {
+						n++
+						if o, w := fieldOK(b, name); !o {
+							res, why = false, w
+						}
+					}
+				}
+			}
+		})
+		if n == 0 {
+			return false, "field " + name + " is never assigned"
+		}
+		return res, why
+	}
+	ok = func(v ssa.Value) (bool, string) {
+		for {
+			switch x := v.(type) {
+			case *ssa.MakeInterface:
+				v = x.X
+				continue
+			case *ssa.ChangeInterface:
+				v = x.X
+				continue
+			case *ssa.ChangeType:
+				v = x.X
+				continue
+			}
+			break
+		}
+		if seen[v] {
+			return true, ""
+		}
+		seen[v] = true
+		switch x := v.(type) {
+		case *ssa.UnOp:
+			if isLimiterField(x.X) {
+				return true, ""
+			}
+			if fa, isFA := x.X.(*ssa.FieldAddr); isFA {
+				if a, isA := fa.X.(*ssa.Alloc); isA {
+					if stt, isS := derefType(a.Type()).Underlying().(*types.Struct); isS {
+						return fieldOK(a, stt.Field(fa.Field).Name())
+					}
+				}
+			}
+			if a, isA := x.X.(*ssa.Alloc); isA { // the whole local struct: its Reader
+				if stt, isS := derefType(a.Type()).Underlying().(*types.Struct); isS {
+					for i := 0; i < stt.NumFields(); i++ {
+						if stt.Field(i).Name() == "Reader" {
+							return fieldOK(a, "Reader")
+						}
+					}
+				}
+			}
+		case *ssa.Alloc:
+			stored := false
+			allInstrs(f, func(in ssa.Instruction) {
+				if st, isSt := in.(*ssa.Store); isSt && st.Val == x && isLimiterField(st.Addr) {
+					stored = true
+				}
+			})
+			if stored {
+				return true, ""
+			}
+			// a package reader type wrapping another reader
+			if nt, isN := derefType(x.Type()).(*types.Named); isN && nt.Obj().Pkg() != nil && nt.Obj().Pkg().Path() == smtpPath {
+				if stt, isS := nt.Underlying().(*types.Struct); isS {
+					n := 0
+					for i := 0; i < stt.NumFields(); i++ {
+						if it, isI := stt.Field(i).Type().Underlying().(*types.Interface); isI && hasMethod(it, "Read") {
+							n++
+							if o, w := fieldOK(x, stt.Field(i).Name()); !o {
+								return false, nt.Obj().Name() + "." + stt.Field(i).Name() + ": " + w
+							}
+						}
+					}
+					if n > 0 {
+						return true, ""
+					}
+				}
+			}
+		case *ssa.Call:
+			if g := staticCallee(&x.Call); g != nil && qualFuncName(g) == "io.TeeReader" {
+				return ok(x.Call.Args[0])
+			}
+		case *ssa.Phi:
+			for _, e := range x.Edges {
+				if o, w := ok(e); !o {
+					return false, w
+				}
+			}
+			return true, ""
+		}
+		return false, "a layer reads from " + describe(v)
+	}
+	return ok(v)
+}
+
+func hasMethod(it *types.Interface, name string) bool {
+	for i := 0; i < it.NumMethods(); i++ {
+		if it.Method(i).Name() == name {
+			return true
+		}
+	}
+	return false
+}
+
+// ruleProtocolErrorSites (C04, C12, C19): protocolError counts towards the connection's error budget and, past the
+// threshold, adds a closing notice to its reply and ends the connection. Only lines that are not commands go that
+// way: the dispatcher's empty and unknown verb, the command loop's unparsable line. A recognised command that is
+// refused (a parameter of a disabled extension, an out-of-order command) is answered by writeResponse: it gets exactly
+// one reply however many refusals came before, and the connection stays usable.
+func ruleProtocolErrorSites(c *Ctx) {
+	R := c.R
+	R.Rule("R-protocol-error-sites", "who-may-call + E3 edge-feasibility", "protocolError (error count, closing notice, Close) is called only by the dispatcher for an empty or unrecognised verb and by the command loop for an unparsable line, never while a recognised command is executed", 3)
+	pe := c.A.Func("(*Conn).protocolError")
+	if pe == nil {
+		return
+	}
+	h := c.A.Func("(*Conn).handle")
+	var keys []string
+	tag := ""
+	if h != nil {
+		tag, keys = switchTag(c, h)
+	}
+	n := 0
+	for _, site := range c.callersOf(pe) {
+		n++
+		fn := funcName(site.Parent())
+		switch fn {
+		case "(*Conn).handle":
+			okAll, bad := true, ""
+			for _, k := range keys {
+				if reach, _ := c.ReachableUnder(site, []string{tag + ` == "` + k + `"`, `param1 != ""`}); reach {
+					okAll, bad = false, k
+					break
+				}
+			}
+			R.Ob(c.siteKey(site, "not for a recognised verb"), c.P.InstrPos(site), okAll && len(keys) >= 10, fmt.Sprintf("the dispatcher can count %s (one of the %d recognised verbs) as a protocol error", bad, len(keys)))
+		case "(*Server).handleConn":
+			c.obFactMatch("only for an unparsable line", site, `^parseCmd\(.*\)#2 != nil$`, "the command loop counts a protocol error for a line that parsed")
+		default:
+			R.Ob(c.siteKey(site, "protocolError caller"), c.P.InstrPos(site), false, fn+" answers through protocolError: a refused but recognised command counts towards the error threshold, and the fourth such refusal gets a second reply (the closing notice) and ends the connection")
+		}
+	}
+	R.Ob("protocolError/call sites", "-", n >= 3, fmt.Sprintf("%d call sites", n))
 }
